@@ -10,3 +10,4 @@ CONSTANTS
   Resizes <- NoResize
   MaxDepth = 4
   Emit = TRUE
+  CheckDump = FALSE
